@@ -110,14 +110,15 @@ fn xyz_points(cfg: &Cfg, salt: u64) -> Vec<[f64; 3]> {
         v.push([r.range(0.0, 1.1), r.range(0.0, 1.0), r.range(0.0, 1.3)]);
         v.push([r.range(0.0, 0.05), r.range(0.0, 0.05), r.range(0.0, 0.05)]);
     } else {
-        for &x in &[0.0, 0.4, 1.0] {
-            for &y in &[0.0, 0.4, 1.0] {
-                for &z in &[0.0, 0.4, 1.0] {
+        for &x in &[0.0, 1.0] {
+            for &y in &[0.0, 1.0] {
+                for &z in &[0.0, 1.0] {
                     v.push([x, y, z]);
                 }
             }
         }
-        for _ in 0..5 {
+        v.push([0.4, 0.4, 0.4]);
+        for _ in 0..3 {
             v.push([r.range(0.0, 1.1), r.range(0.0, 1.0), r.range(0.0, 1.3)]);
         }
         v.push([r.range(0.0, 0.01), r.range(0.0, 0.01), r.range(0.0, 0.01)]);
@@ -389,105 +390,109 @@ macro_rules! driver {
             }
 
             // -------------------------------------------------------------------------------- adaptation
-            fn pts_json(p: &[Xyz<Any, T>]) -> Value { Value::Array(p.iter().map(|c| v3(*c)).collect()) }
+            // The (source, destination, method) triples are types: 16 x 16 x 3 instances per component type. Only the
+            // small kernels below are generic; recording is shared.
+            #[derive(Default)]
+            pub struct Raw {
+                mat: Vec<T>, matd: Vec<T>, old: Vec<T>, wdst: Vec<T>,
+                pts: Vec<[T; 3]>, fwd: Vec<[T; 3]>, forms: Vec<Vec<[T; 3]>>, fnames: Vec<&'static str>,
+                back: Vec<[T; 3]>, backf: Vec<[T; 3]>, backo: Vec<[T; 3]>,
+            }
+            fn arr<W>(c: Xyz<W, T>) -> [T; 3] { [c.x, c.y, c.z] }
             const ADAPT_FIELDS: [&str; 11] = ["mat", "matd", "old", "wdst", "pts", "fwd", "forms", "fnames", "back", "backf", "backo"];
+            fn rows(v: &[[T; 3]]) -> Value { Value::Array(v.iter().map(|p| ex_arr(p)).collect()) }
 
             /// white points that are their own XYZ meta type: adaptation_matrix, the *Unclamped traits and the deprecated API
-            pub fn adapt_new<I: WpNew, O: WpNew, M: Mn + XyzToLms<T> + LmsToXyz<T>>(rec: &mut Rec, cfg: &Cfg) {
-                let key = format!("{}/{}/{}", I::NAME, O::NAME, M::NAME);
-                if !cfg.want("adapt", &key) { return; }
-                let b = base("adapt", &[("src", json!(I::NAME)), ("dst", json!(O::NAME)), ("m", json!(M::NAME)), ("api", json!("new"))]);
-                let pts = xyz_points(cfg, key.bytes().fold(7u64, |a, c| a.wrapping_mul(131).wrapping_add(c as u64)));
-                let r = catch(|| {
-                    let wi: Xyz<I, T> = <I as WhitePoint<T>>::get_xyz().with_white_point();
-                    let wo: Xyz<O, T> = <O as WhitePoint<T>>::get_xyz().with_white_point();
-                    let fm = adaptation_matrix::<T, I, O, M>(None, None);
-                    let bm = adaptation_matrix::<T, O, I, M>(None, None);
-                    let dm = adaptation_matrix::<T, I, O, M>(Some(wi), Some(wo));
-                    let old = M::old().generate_transform_matrix(<I as WhitePoint<T>>::get_xyz(), <O as WhitePoint<T>>::get_xyz());
-                    let oldb = M::old().generate_transform_matrix(<O as WhitePoint<T>>::get_xyz(), <I as WhitePoint<T>>::get_xyz());
-                    let wdst: Xyz<O, T> = fm.convert(wi);
-                    let ins: Vec<Xyz<I, T>> = pts.iter().map(|p| Xyz::new(t(p[0]), t(p[1]), t(p[2]))).collect();
-                    let any = |v: &[Xyz<O, T>]| -> Vec<Xyz<Any, T>> { v.iter().map(|c| c.with_white_point()).collect() };
-                    let fwd: Vec<Xyz<O, T>> = ins.iter().map(|&p| fm.convert(p)).collect();
-                    let mut forms: Vec<Value> = Vec::new();
-                    let mut fnames: Vec<&str> = Vec::new();
-                    let f1: Vec<Xyz<O, T>> = ins.iter().map(|&p| Xyz::<O, T>::adapt_from_unclamped_with::<M>(p)).collect();
-                    forms.push(pts_json(&any(&f1))); fnames.push("adapt_from_unclamped_with");
-                    let f2: Vec<Xyz<O, T>> = ins.iter().map(|&p| AdaptIntoUnclamped::<Xyz<O, T>>::adapt_into_unclamped_with::<M>(p)).collect();
-                    forms.push(pts_json(&any(&f2))); fnames.push("adapt_into_unclamped_with");
-                    let f3: Vec<Xyz<O, T>> = ins.iter().map(|&p| <Xyz<O, T> as AdaptFrom<Xyz<I, T>, I, O, T>>::adapt_from_using(p, M::old())).collect();
-                    forms.push(pts_json(&any(&f3))); fnames.push("adapt_from_using");
-                    let f4: Vec<Xyz<O, T>> = ins.iter().map(|&p| <Xyz<I, T> as AdaptInto<Xyz<O, T>, I, O, T>>::adapt_into_using(p, M::old())).collect();
-                    forms.push(pts_json(&any(&f4))); fnames.push("adapt_into_using");
-                    let f5: Vec<Xyz<O, T>> = ins.iter().map(|&p| dm.convert(p)).collect();
-                    forms.push(pts_json(&any(&f5))); fnames.push("adaptation_matrix(Some,Some).convert");
-                    if M::NAME == "bradford" {
-                        // the default method of every trait is Bradford
-                        let d1: Vec<Xyz<O, T>> = ins.iter().map(|&p| Xyz::<O, T>::adapt_from_unclamped(p)).collect();
-                        forms.push(pts_json(&any(&d1))); fnames.push("adapt_from_unclamped");
-                        let d2: Vec<Xyz<O, T>> = ins.iter().map(|&p| AdaptIntoUnclamped::<Xyz<O, T>>::adapt_into_unclamped(p)).collect();
-                        forms.push(pts_json(&any(&d2))); fnames.push("adapt_into_unclamped");
-                        let d3: Vec<Xyz<O, T>> = ins.iter().map(|&p| <Xyz<O, T> as AdaptFrom<Xyz<I, T>, I, O, T>>::adapt_from(p)).collect();
-                        forms.push(pts_json(&any(&d3))); fnames.push("adapt_from");
-                        let d4: Vec<Xyz<O, T>> = ins.iter().map(|&p| <Xyz<I, T> as AdaptInto<Xyz<O, T>, I, O, T>>::adapt_into(p)).collect();
-                        forms.push(pts_json(&any(&d4))); fnames.push("adapt_into");
+            #[inline(never)]
+            fn kernel_new<I: WpNew, O: WpNew, M: Mn + XyzToLms<T> + LmsToXyz<T>>(pts: &[[T; 3]], r: &mut Raw) {
+                let wi: Xyz<I, T> = <I as WhitePoint<T>>::get_xyz().with_white_point();
+                let wo: Xyz<O, T> = <O as WhitePoint<T>>::get_xyz().with_white_point();
+                let fm = adaptation_matrix::<T, I, O, M>(None, None);
+                let bm = adaptation_matrix::<T, O, I, M>(None, None);
+                let dm = adaptation_matrix::<T, I, O, M>(Some(wi), Some(wo));
+                let old = M::old().generate_transform_matrix(<I as WhitePoint<T>>::get_xyz(), <O as WhitePoint<T>>::get_xyz());
+                let oldb = M::old().generate_transform_matrix(<O as WhitePoint<T>>::get_xyz(), <I as WhitePoint<T>>::get_xyz());
+                r.mat = fm.into_array().to_vec();
+                r.matd = dm.into_array().to_vec();
+                r.old = old.to_vec();
+                r.wdst = arr::<O>(fm.convert(wi)).to_vec();
+                let brad = M::NAME == "bradford";   // the default method of every trait is Bradford
+                r.fnames = vec!["adapt_from_unclamped_with", "adapt_into_unclamped_with", "adapt_from_using", "adapt_into_using",
+                                "adaptation_matrix(Some,Some).convert"];
+                if brad { r.fnames.extend(["adapt_from_unclamped", "adapt_into_unclamped", "adapt_from", "adapt_into"]); }
+                r.forms = vec![Vec::new(); r.fnames.len()];
+                for p in pts {
+                    let x = Xyz::<I, T>::new(p[0], p[1], p[2]);
+                    let f: Xyz<O, T> = fm.convert(x);
+                    r.pts.push(*p);
+                    r.fwd.push(arr(f));
+                    r.back.push(arr::<I>(bm.convert(f)));
+                    let f1 = Xyz::<O, T>::adapt_from_unclamped_with::<M>(x);
+                    let f3 = <Xyz<O, T> as AdaptFrom<Xyz<I, T>, I, O, T>>::adapt_from_using(x, M::old());
+                    r.forms[0].push(arr(f1));
+                    r.forms[1].push(arr(AdaptIntoUnclamped::<Xyz<O, T>>::adapt_into_unclamped_with::<M>(x)));
+                    r.forms[2].push(arr(f3));
+                    r.forms[3].push(arr(<Xyz<I, T> as AdaptInto<Xyz<O, T>, I, O, T>>::adapt_into_using(x, M::old())));
+                    r.forms[4].push(arr::<O>(dm.convert(x)));
+                    if brad {
+                        r.forms[5].push(arr(Xyz::<O, T>::adapt_from_unclamped(x)));
+                        r.forms[6].push(arr(AdaptIntoUnclamped::<Xyz<O, T>>::adapt_into_unclamped(x)));
+                        r.forms[7].push(arr(<Xyz<O, T> as AdaptFrom<Xyz<I, T>, I, O, T>>::adapt_from(x)));
+                        r.forms[8].push(arr(<Xyz<I, T> as AdaptInto<Xyz<O, T>, I, O, T>>::adapt_into(x)));
                     }
-                    let back: Vec<Xyz<Any, T>> = fwd.iter().map(|&p| bm.convert(p).with_white_point()).collect();
-                    let backf: Vec<Xyz<Any, T>> = f1.iter().map(|&p| Xyz::<I, T>::adapt_from_unclamped_with::<M>(p).with_white_point()).collect();
-                    let backo: Vec<Xyz<Any, T>> = f3.iter().map(|&p| Xyz::<Any, T>::from(multiply_3x3_and_vec3(oldb, p.into()))).collect();
-                    vec![
-                        ("mat", m9(fm.into_array())), ("matd", m9(dm.into_array())), ("old", m9(old)), ("wdst", v3(wdst)),
-                        ("pts", pts_json(&ins.iter().map(|c| c.with_white_point()).collect::<Vec<_>>())),
-                        ("fwd", pts_json(&any(&fwd))), ("forms", Value::Array(forms)), ("fnames", json!(fnames)),
-                        ("back", pts_json(&back)), ("backf", pts_json(&backf)), ("backo", pts_json(&backo)),
-                    ]
-                });
-                rec.ev(match r {
-                    Ok(x) => put(b, x),
-                    Err(m) => panic_event(b, m, &ADAPT_FIELDS),
-                });
+                    r.backf.push(arr(Xyz::<I, T>::adapt_from_unclamped_with::<M>(f1)));
+                    r.backo.push(multiply_3x3_and_vec3(oldb, f3.into()));
+                }
             }
 
             /// any white point (the DCI white is not an XYZ meta type): only the deprecated API applies
-            pub fn adapt_old<I: WpOld, O: WpOld, M: Mn>(rec: &mut Rec, cfg: &Cfg) {
-                let key = format!("{}/{}/{}", I::NAME, O::NAME, M::NAME);
+            #[inline(never)]
+            fn kernel_old<I: WpOld, O: WpOld, M: Mn>(pts: &[[T; 3]], r: &mut Raw) {
+                let wi = <I as WhitePoint<T>>::get_xyz();
+                let wo = <O as WhitePoint<T>>::get_xyz();
+                let old = M::old().generate_transform_matrix(wi, wo);
+                let oldb = M::old().generate_transform_matrix(wo, wi);
+                r.old = old.to_vec();
+                r.wdst = arr(<Xyz<O, T> as AdaptFrom<Xyz<I, T>, I, O, T>>::adapt_from_using(wi.with_white_point(), M::old())).to_vec();
+                let brad = M::NAME == "bradford";
+                r.fnames = vec!["adapt_from_using", "adapt_into_using"];
+                if brad { r.fnames.push("adapt_from"); }
+                r.forms = vec![Vec::new(); r.fnames.len()];
+                for p in pts {
+                    let x = Xyz::<I, T>::new(p[0], p[1], p[2]);
+                    let f = multiply_3x3_and_vec3(old, *p);
+                    r.pts.push(*p);
+                    r.fwd.push(f);
+                    r.back.push(multiply_3x3_and_vec3(oldb, f));
+                    let f3 = <Xyz<O, T> as AdaptFrom<Xyz<I, T>, I, O, T>>::adapt_from_using(x, M::old());
+                    r.forms[0].push(arr(f3));
+                    r.forms[1].push(arr(<Xyz<I, T> as AdaptInto<Xyz<O, T>, I, O, T>>::adapt_into_using(x, M::old())));
+                    if brad { r.forms[2].push(arr(<Xyz<O, T> as AdaptFrom<Xyz<I, T>, I, O, T>>::adapt_from(x))); }
+                    r.backo.push(arr(<Xyz<I, T> as AdaptFrom<Xyz<O, T>, O, I, T>>::adapt_from_using(f3, M::old())));
+                }
+            }
+
+            fn record_adapt(rec: &mut Rec, cfg: &Cfg, src: &str, dst: &str, m: &str, api: &str, kernel: fn(&[[T; 3]], &mut Raw)) {
+                let key = format!("{}/{}/{}", src, dst, m);
                 if !cfg.want("adapt", &key) { return; }
-                let b = base("adapt", &[("src", json!(I::NAME)), ("dst", json!(O::NAME)), ("m", json!(M::NAME)), ("api", json!("old"))]);
-                let pts = xyz_points(cfg, key.bytes().fold(7u64, |a, c| a.wrapping_mul(131).wrapping_add(c as u64)));
-                let r = catch(|| {
-                    let wi = <I as WhitePoint<T>>::get_xyz();
-                    let wo = <O as WhitePoint<T>>::get_xyz();
-                    let old = M::old().generate_transform_matrix(wi, wo);
-                    let oldb = M::old().generate_transform_matrix(wo, wi);
-                    let wdst: Xyz<O, T> = <Xyz<O, T> as AdaptFrom<Xyz<I, T>, I, O, T>>::adapt_from_using(wi.with_white_point(), M::old());
-                    let ins: Vec<Xyz<I, T>> = pts.iter().map(|p| Xyz::new(t(p[0]), t(p[1]), t(p[2]))).collect();
-                    let any = |v: &[Xyz<O, T>]| -> Vec<Xyz<Any, T>> { v.iter().map(|c| c.with_white_point()).collect() };
-                    let fwd: Vec<Xyz<O, T>> = ins.iter().map(|&p| Xyz::<O, T>::from(multiply_3x3_and_vec3(old, p.into()))).collect();
-                    let mut forms: Vec<Value> = Vec::new();
-                    let mut fnames: Vec<&str> = Vec::new();
-                    let f3: Vec<Xyz<O, T>> = ins.iter().map(|&p| <Xyz<O, T> as AdaptFrom<Xyz<I, T>, I, O, T>>::adapt_from_using(p, M::old())).collect();
-                    forms.push(pts_json(&any(&f3))); fnames.push("adapt_from_using");
-                    let f4: Vec<Xyz<O, T>> = ins.iter().map(|&p| <Xyz<I, T> as AdaptInto<Xyz<O, T>, I, O, T>>::adapt_into_using(p, M::old())).collect();
-                    forms.push(pts_json(&any(&f4))); fnames.push("adapt_into_using");
-                    if M::NAME == "bradford" {
-                        let d3: Vec<Xyz<O, T>> = ins.iter().map(|&p| <Xyz<O, T> as AdaptFrom<Xyz<I, T>, I, O, T>>::adapt_from(p)).collect();
-                        forms.push(pts_json(&any(&d3))); fnames.push("adapt_from");
-                    }
-                    let backo: Vec<Xyz<Any, T>> = f3.iter()
-                        .map(|&p| <Xyz<I, T> as AdaptFrom<Xyz<O, T>, O, I, T>>::adapt_from_using(p, M::old()).with_white_point()).collect();
-                    let back: Vec<Xyz<Any, T>> = fwd.iter().map(|&p| Xyz::<Any, T>::from(multiply_3x3_and_vec3(oldb, p.into()))).collect();
-                    vec![
-                        ("mat", json!([])), ("matd", json!([])), ("old", m9(old)), ("wdst", v3(wdst)),
-                        ("pts", pts_json(&ins.iter().map(|c| c.with_white_point()).collect::<Vec<_>>())),
-                        ("fwd", pts_json(&any(&fwd))), ("forms", Value::Array(forms)), ("fnames", json!(fnames)),
-                        ("back", pts_json(&back)), ("backf", json!([])), ("backo", pts_json(&backo)),
-                    ]
+                let b = base("adapt", &[("src", json!(src)), ("dst", json!(dst)), ("m", json!(m)), ("api", json!(api))]);
+                let pts: Vec<[T; 3]> = xyz_points(cfg, key.bytes().fold(7u64, |a, c| a.wrapping_mul(131).wrapping_add(c as u64)))
+                    .iter().map(|p| [t(p[0]), t(p[1]), t(p[2])]).collect();
+                let res = catch(|| { let mut r = Raw::default(); kernel(&pts, &mut r); r });
+                rec.ev(match res {
+                    Ok(r) => put(b, vec![
+                        ("mat", ex_arr(&r.mat)), ("matd", ex_arr(&r.matd)), ("old", ex_arr(&r.old)), ("wdst", ex_arr(&r.wdst)),
+                        ("pts", rows(&r.pts)), ("fwd", rows(&r.fwd)), ("forms", Value::Array(r.forms.iter().map(|f| rows(f)).collect())),
+                        ("fnames", json!(r.fnames)), ("back", rows(&r.back)), ("backf", rows(&r.backf)), ("backo", rows(&r.backo)),
+                    ]),
+                    Err(msg) => panic_event(b, msg, &ADAPT_FIELDS),
                 });
-                rec.ev(match r {
-                    Ok(x) => put(b, x),
-                    Err(m) => panic_event(b, m, &ADAPT_FIELDS),
-                });
+            }
+            fn adapt_new<I: WpNew, O: WpNew, M: Mn + XyzToLms<T> + LmsToXyz<T>>(rec: &mut Rec, cfg: &Cfg) {
+                record_adapt(rec, cfg, I::NAME, O::NAME, M::NAME, "new", kernel_new::<I, O, M>);
+            }
+            fn adapt_old<I: WpOld, O: WpOld, M: Mn>(rec: &mut Rec, cfg: &Cfg) {
+                record_adapt(rec, cfg, I::NAME, O::NAME, M::NAME, "old", kernel_old::<I, O, M>);
             }
 
             fn new3<I: WpNew, O: WpNew>(rec: &mut Rec, cfg: &Cfg) {
